@@ -22,7 +22,7 @@ import re
 import lib
 import c04
 
-QUICK_WALKS = 12
+QUICK_WALKS = 8
 THOROUGH_WALKS = 150
 
 
